@@ -45,7 +45,19 @@ def valid_grid(ctx):
             out.append((solver, c, "bounds"))
     if quick:
         out = ctx.rng.sample(out, 26)
-    return out
+    # integer spellings of whole-number parameters (the dataclass fields are annotated float; Python and YAML users write 1, 10):
+    # always in the grid, one solver each at quick tier
+    ints = []
+    for solver in SOLVERS:
+        for extra in ({"epsilon": 1}, {"epsilon": 10}, {"epsilon": 100}, {"gamma": 1}, {"gamma": 0}):
+            if solver == "rvi" and extra.get("gamma") == 0:
+                continue
+            c = base_cfg(solver)
+            c.update(extra)
+            ints.append((solver, c, "integer-spelling"))
+    if quick:
+        ints = [x for i, x in enumerate(ints) if i % len(SOLVERS) == (ctx.seed + i // 5) % len(SOLVERS)] + [x for x in ints if x[0] == "pvi" and "epsilon" in x[1] and isinstance(x[1]["epsilon"], int)][:2]
+    return out + ints
 
 
 def invalid_grid(ctx):
